@@ -20,6 +20,16 @@ structure CSpec where
 
 def RSpec.toC (s : RSpec) : CSpec := ⟨s.offset.toNat, s.length.toNat⟩
 
+/-- RFC 9110 14.1.2: the satisfiable part of one byte-range-spec over `n` bytes (independent of the canonisation code) -/
+def rfcPart (n : Nat) (s : RSpec) : Option CSpec :=
+  if s.offset < 0 then                                   -- suffix: the last `length` bytes
+    if s.length ≤ 0 || n = 0 then none
+    else some ⟨n - min n s.length.toNat, min n s.length.toNat⟩
+  else if s.offset.toNat ≥ n then none
+  else if s.length < 0 then some ⟨s.offset.toNat, n - s.offset.toNat⟩      -- to the end
+  else if s.length = 0 then none
+  else some ⟨s.offset.toNat, min s.length.toNat (n - s.offset.toNat)⟩
+
 /-- `%` PRId64 of a non-negative number -/
 def decDigits : Nat → Nat → List UInt8
   | 0, _ => []
